@@ -96,6 +96,8 @@ type Bus struct {
 
 	// OnRequest, if set, is called (without locks) for every new request.
 	OnRequest func(r *BusReq)
+	// OnRequestGate is the gate's own observer of every new request.
+	OnRequestGate func(r *BusReq)
 	// FailSubscribe, if set, may return an error for a Subscribe call.
 	FailSubscribe func(ns string) error
 }
@@ -334,6 +336,9 @@ func (b *Bus) SendRequest(subj string, payload []byte, cb mq.Response) {
 			b.mu.Unlock()
 		}()
 		return
+	}
+	if b.OnRequestGate != nil {
+		b.OnRequestGate(r)
 	}
 	if b.OnRequest != nil {
 		b.OnRequest(r)
